@@ -10,6 +10,7 @@ import itertools
 import multiprocessing as mp
 
 import common_check as cc
+import engine_corr as ec
 import lib
 
 CORE = ["ALPHA", "BIT", "CHAR", "CR", "CRLF", "CTL", "DIGIT", "DQUOTE", "HEXDIG", "HTAB", "LF", "LWSP", "OCTET", "SP", "VCHAR", "WSP"]
@@ -128,7 +129,7 @@ def run(ctx):
             for s in strings:
                 if name not in ("CRLF", "LWSP") and cls is not P.Rule and len(s) > 2:
                     continue
-                py = lib.py_lparse(P, rule, s, 0, full=False)
+                py = ec.py_lparse_disturbed(P, rule, s, 0)[0]
                 c = lib.cps(s)
                 lines.append(f"rfcends {name} 0" + ((" " + c) if c else ""))
                 exp.append((name, cls is not P.Rule, s, py))
@@ -184,6 +185,6 @@ def replay(rp):
             bad |= got != want
         return 1 if bad else 0
     s = "".join(chr(c) for c in rp["source"])
-    py = lib.py_lparse(P, P.Rule(rp["rule"]), s, 0, full=False)
+    py = ec.py_lparse_disturbed(P, P.Rule(rp["rule"]), s, 0)[0]
     print("implementation:", py, "rfc:", rp["rfc"])
     return 0 if lib.ends_of(py) == lib.ends_of(rp["rfc"]) else 1
